@@ -159,6 +159,12 @@ def strLit (s : String) : Bytes := s.toUTF8.toList
 /-- bytes up to the first NUL (`strlen`, `%s`) -/
 def cstr (b : Bytes) : Bytes := b.takeWhile (· != 0)
 
+/-- string elements of an array print in double quotes -/
+def quoteIfStr (v : Val) (b : Bytes) : Bytes :=
+  match v with
+  | .str _ => strLit "\"" ++ b ++ strLit "\""
+  | _ => b
+
 /-- `val_print`: `path` is the chain of containers currently being printed (innermost first);
     a container already on the chain, or nesting ≥ 64, prints as "...".
     `none` = not modelled (floats, closures, hashmaps). -/
@@ -177,14 +183,14 @@ def fmtVal (h : Heap) : Nat → List Nat → Val → Option Bytes
     | .u8 n => some (natToDec n)
     | .float _ => none
     | .bool b => some (strLit (if b then "true" else "false"))
-    | .enum x => some (strLit "enum(" ++ natToDec x ++ strLit ")")
+    | .enum x => some (natToDec x)
     | .opaque id => some (strLit "opaque(" ++ natToDec id ++ strLit ")")
     | .clos _ | .hmap _ => none
     | .str a => match h.obj? a with
       | some (.str b) => some (cstr b)
       | _ => none
     | .arr a => container a fun
-      | .arr _ es => some (es, fun bs => strLit "[" ++ join bs ++ strLit "]")
+      | .arr _ es => some (es, fun bs => strLit "[" ++ join (List.zipWith quoteIfStr es bs) ++ strLit "]")
       | _ => none
     | .struct a => container a fun
       | .struct _ fs => some (fs, fun bs => strLit "{" ++ join bs ++ strLit "}")
